@@ -1,7 +1,7 @@
 (* C20_json.v -- the JSON error body of model/ErrPage.v is accepted by the JSON
    reader of the same file (spec side), for ALL strings, and reads back to the
    same strings whenever they consist of Unicode scalar values. *)
-From Verif Require Import lib.Base lib.Str lib.Html lib.PyRepr model.ErrPage.
+From Verif Require Import lib.Base lib.Str lib.Html lib.PyRepr model.ErrPage proofs.C20_html.
 From Coq Require Import Lia ZifyBool ZifyN.
 
 Ltac Zify.zify_post_hook ::= Z.to_euclidean_division_equations.
@@ -235,3 +235,28 @@ Proof.
 Qed.
 
 End Table.
+
+(* ---------------- the response as a whole ---------------- *)
+
+
+Lemma error_response_shape (isp : N -> bool) k x tb url accept e :
+  err_of_kind k x tb = Some e ->
+  respond_error isp k x tb url accept false
+  = if is_json_requested accept
+    then Resp (e_status e) ctype_json (error_json isp e)
+    else Resp (e_status e) Gen.default_content_type (html_pre e ++ url_text isp url ++ html_post e).
+Proof.
+  intros He. unfold respond_error, default_error_handler. rewrite He.
+  destruct (is_json_requested accept); [reflexivity|].
+  rewrite render_nodebug. reflexivity.
+Qed.
+
+(* the JSON branch has no debug switch: exception and traceback are part of the body even with debug off *)
+Lemma json_branch_exposes_exception :
+  exists (e : err) (x : exc) (tb : option str),
+    default_error_handler (fun _ => true) (mkErr (e_status e) (e_body e) x tb) [] (Some accept_json) false
+    <> default_error_handler (fun _ => true) e [] (Some accept_json) false.
+Proof.
+  exists (mkErr [53; 48; 48]%N [120]%N ExcNone None), ExcNone, (Some [84]%N).
+  vm_compute. discriminate.
+Qed.
